@@ -170,10 +170,6 @@ VARIANTS = {
 }
 
 
-def shapes_upto(cells):
-    return [(h, w) for h in range(1, cells + 1) for w in range(1, cells // h + 1)]
-
-
 def enum_cases(variant, h, w, lo, hi, sub="regions", key="n"):
     dtype, pal = VARIANTS[variant]
     base = len(pal)
@@ -189,28 +185,6 @@ def enum_cases(variant, h, w, lo, hi, sub="regions", key="n"):
             yield {"sub": sub, "raster": {"dtype": dtype, "data": data}, key: n, "enum": [variant, h, w, idx]}
 
 
-def enum_chunks(variant, max_cells, chunk=1 << 14):
-    """[(h, w, lo, hi)] covering every raster of every shape with <= max_cells cells, smallest grids first."""
-    base = len(VARIANTS[variant][1])
-    out = []
-    for (h, w) in sorted(shapes_upto(max_cells), key=lambda s: (s[0] * s[1], s[0])):
-        total = base ** (h * w)
-        for lo in range(0, total, chunk):
-            out.append((h, w, lo, min(total, lo + chunk)))
-    return out
-
-
-def split_chunks(chunks, k):
-    """Deterministic greedy split of chunks into k bins of similar total size (largest first)."""
-    bins = [[] for _ in range(k)]
-    load = [0] * k
-    for c in sorted(chunks, key=lambda c: -(c[3] - c[2])):
-        i = load.index(min(load))
-        bins[i].append(c)
-        load[i] += c[3] - c[2]
-    return [sorted(b, key=lambda c: (c[0] * c[1], c[0], c[2])) for b in bins]
-
-
 def _enum_shard(variant, chunks, body, sub, key):
     def run(ctx):
         for (h, w, lo, hi) in chunks:
@@ -224,7 +198,7 @@ def _enum_shard(variant, chunks, body, sub, key):
 def enum_shards(tier, plan, body, sub, key):
     out = []
     for variant, max_cells, k in plan:
-        bins = split_chunks(enum_chunks(variant, max_cells), k)
+        bins = topo.split_chunks(topo.enum_chunks(len(VARIANTS[variant][1]), max_cells), k)
         for i, b in enumerate(bins):
             if b:
                 out.append(("enum_%s_le%d#%d" % (variant, max_cells, i), _enum_shard(variant, b, body, sub, key)))
